@@ -245,6 +245,9 @@ V_HARNESS(h_27)
   V_INIT();
   memset(&CP, 0, sizeof CP); memset(&CP2, 0, sizeof CP2);       /* parse_27 reads only cvtp->function (LOP here; DISCARD returns at once) */
   in_bytes(raw, 40); pos = in_u16(); mag0 = in_u8() & 7; d = in_u32(); des = in_u8() & 15;
+#ifdef DESSEL    /* designation code enumerated by the runner */
+  des = (DESSEL);
+#endif
   V_ASSUME(pos < 8 * 38);                     /* bytes 0..37 are protected; 38/39 is the (ignored) CRC */
   raw[0] = (uint8_t) ref_ham8(des);           /* clean designation code (an error in it is injected below like anywhere else) */
   /* the protected unit that will be hit is error free; everything else arbitrary */
@@ -260,7 +263,7 @@ V_HARNESS(h_27)
   b = parse_27((vbi_decoder *) 0, r2, &CP2, (int) mag0);
   V_ASSERT(a == b, "x27_single_error_same_result");
   V_ASSERT(bytes_eq(&CP, &CP2, sizeof CP), "x27_single_error_same_state");
-  if (a && des <= 5) V_REACH("clean");
+  if (a) V_REACH("clean");
   V_END();
 }
 #endif
@@ -448,6 +451,12 @@ V_HARNESS(h_2829)
   CP2 = CP; m1 = CN._magazines[mag8 - 1].extension;
   in_bytes(raw, 40); pos = in_u16(); pk = 28 + (in_u8() & 1);
   { unsigned d = in_u32(), des = in_u8() & 15;
+#ifdef DESSEL    /* designation code and packet number enumerated by the runner */
+    des = (DESSEL);
+#endif
+#ifdef PK2829
+    pk = (PK2829);
+#endif
     V_ASSUME(pos < 320);
     raw[0] = (uint8_t) ref_ham8(des);
     if (pos / 8 >= 1) put_ham24(raw, (pos / 8 - 1) / 3, d); }
